@@ -65,6 +65,51 @@ def lexemes_for(kind):
     return [PUNCT[kind]]
 
 
+# ---------------------------------------------------------------------------
+# second tokenizer family + independent reference tokenizer (C01 part token_stream)
+# ---------------------------------------------------------------------------
+# several keyword source types whose lexeme sets overlap: LABEL (a word directly followed by ':'), ATWORD (a word directly
+# behind '@'), WORD and NUM. Patterns in alternation order, each one a complete alternative (so "first alternative that
+# matches at the position" is exactly Python's alternation semantics for this family).
+TOKENIZER2_GROUPS = [
+    ("SPACE", r"\s+"), ("COMMENT", r"\#.*"),
+    ("LABEL", r"[a-zA-Z_]+(?=:)"), ("ATWORD", r"(?<=@)[a-zA-Z_]+"), ("WORD", r"[a-zA-Z_]+"),
+    ("NUM", r"[0-9]+"), ("AT", r"@"), ("COLON", r":"), ("COMMA", r","), ("SEMI", r";"), ("PLUS", r"\+"),
+]
+TOKENIZER2 = "\n".join(("    |" if i else "    ") + "(?P<%s>%s)" % (n, r) for i, (n, r) in enumerate(TOKENIZER2_GROUPS))
+TOK2_SYNONYMS = [{}, {"COMMA": ",", "SEMI": ";"}, {"ATWORD": "WORD"}, {"LABEL": "WORD", "PLUS": "+"}]
+TOK2_KEYWORD_SETS = [
+    {},
+    {("WORD", "if"): "IF", ("WORD", "end"): "END"},
+    {("WORD", "if"): "IF", ("LABEL", "end"): "END_LABEL", ("NUM", "007"): "BOND"},
+    {("LABEL", "if"): "IF_LABEL", ("ATWORD", "end"): "AT_END", ("WORD", "do"): "DO", ("NUM", "0"): "ZERO"},
+    {("WORD", "if"): "IF", ("ATWORD", "if"): "AT_IF", ("LABEL", "do"): "DO_LABEL"},
+]
+
+
+def ref_tokenize2(text, synonyms, keywords):
+    """independent tokenization of `text` (no newlines inside tokens) -> [(name, value)] incl. SPACE / COMMENT,
+    or None when some character matches no pattern"""
+    import re
+    pats = [(n, re.compile(r)) for n, r in TOKENIZER2_GROUPS]
+    out = []
+    for line in text.split("\n"):
+        col = 0
+        while col < len(line):
+            for n, rx in pats:
+                m = rx.match(line, col)
+                if m is not None and m.end() > col:
+                    break
+            else:
+                return None
+            value = m.group(0)
+            name = synonyms.get(n, n)
+            name = keywords.get((name, value), name)
+            out.append((name, value))
+            col = m.end()
+    return out
+
+
 TERMINAL_KINDS = ["WORD", "NUM", "PLUS", "COMMA", "SEMI", "LPAR", "RPAR", "KW_if", "KW_end", "KW_do"]
 
 
